@@ -150,6 +150,12 @@ def run_case(kind, grid, li, quad, ei, rel):
     shared = {}
 
     def run(d, g=grid, ex=extra, sh=shapes, ltx=lt):
+        if rel[0].endswith("-recomputed"):
+            # all runs of the relation but the first are made with a stock (and lifetime model) that has a past: computed
+            # before with other parameters and another driver, its cohort tables read, then only part of the parameters
+            # changed, then the present ones set
+            shared["n"] = shared.get("n", 0) + 1
+            return dsm_impl.run_stock(kind, g, ltx, quad, ex, sh, d, recompute="first-only" if shared["n"] > 1 else False)
         if rel[0].endswith("-shared"):
             # all stocks of this relation hold ONE lifetime model object (as in a scenario loop that builds the
             # lifetime model once and hands it to every stock)
@@ -162,7 +168,7 @@ def run_case(kind, grid, li, quad, ei, rel):
         return dsm_impl.driver_series(f"imp:{t}:{li_}", n, extra)
 
     def go():
-        r = rel[0].replace("-shared", "")
+        r = rel[0].replace("-shared", "").replace("-recomputed", "")
         if r == "impulse":
             t0, l0 = rel[1], rel[2]
             res = run(imp(t0, l0))
@@ -285,6 +291,8 @@ def relations(n, nlab, tier):
     rels.append(("superpose-shared", list(basis[0]), list(basis[-1])))
     rels.append(("superpose-shared", list(basis[-1]), list(basis[len(basis) // 2])))
     rels.append(("scale-shared", -3.0))
+    rels.append(("scale-recomputed", -3.0))
+    rels.append(("superpose-recomputed", list(basis[0]), list(basis[-1])))
     for t in range(n):
         rels.append(("inverse-impulse", t, (t * 3) % nlab))
     rels.append(("scale", -3.0))
